@@ -32,6 +32,7 @@ def hasCRLF (s : Bytes) : Bool := s.any (fun b => b == 13 || b == 10)
 /-- the extension keyword a MAIL/RCPT parameter needs -/
 def needs (key : Bytes) : Option String :=
   let k := toUpper key
+  if k == "BODY=BINARYMIME".b then some "BINARYMIME" else
   if k == "BODY".b then some "8BITMIME" else if k == "SIZE".b then some "SIZE"
   else if k == "REQUIRETLS".b then some "REQUIRETLS" else if k == "SMTPUTF8".b then some "SMTPUTF8"
   else if k == "RET".b || k == "ENVID".b || k == "NOTIFY".b || k == "ORCPT".b then some "DSN"
@@ -41,14 +42,18 @@ def needs (key : Bytes) : Option String :=
 def paramKeys (line : Bytes) : List Bytes :=
   let afterPath := (line.dropWhile (· != 62)).drop 1
   (splitByte afterPath 32).filterMap fun tok =>
-    if tok.isEmpty then none else some (tok.takeWhile (· != 61))
+    if tok.isEmpty then none
+    else if toUpper tok == "BODY=BINARYMIME".b then some tok      -- the one parameter whose extension depends on its value
+    else some (tok.takeWhile (· != 61))
 
 structure M where
   peer : Client.Peer
   ext : List Bytes := []              -- keys of the most recent EHLO reply
   accepted : List Bytes := []         -- recipients accepted in the current transaction
   parts : Bytes := []                 -- body written since the last Data call
-  lastWasClose : Bool := false
+  lastWasClose : Bool := false        -- the previous call closed an open writer or re-closed a closed one
+  nWriters : Nat := 0                 -- DATA writers handed out so far
+  closedW : List Nat := []            -- the ones whose Close has been called
   lastChunk : Bytes := []             -- the reply chunk most recently released by the peer
 deriving Inhabited
 
@@ -77,6 +82,19 @@ def lineDiscipline (o : Obs) : List String :=
 
 def argOf : Client.Call → Option Bytes
   | .hello n => some n | .mail f _ => some f | .rcpt t _ => some t | .verify a => some a | _ => none
+
+/-- C16's domain: CR occurs only as part of CRLF -/
+def crOk (body : Bytes) : Bool := (body.zip (body.drop 1 ++ [0])).all (fun p => p.1 != 13 || p.2 == 10)
+
+/-- bare LF (one not preceded by CR) becomes CRLF; `prev` is the octet before the list -/
+def lfToCrlf : Byte → Bytes → Bytes
+  | _, [] => []
+  | prev, b :: t => if b == 10 && prev != 13 then 13 :: 10 :: lfToCrlf b t else b :: lfToCrlf b t
+
+/-- C16's normal form: bare LF becomes CRLF and a final CRLF is ensured -/
+def normBody (body : Bytes) : Bytes :=
+  let n := lfToCrlf 0 body
+  if n.isEmpty || !(hasSuffix n [13, 10]) then n ++ [13, 10] else n
 
 def step (lmtp : Bool) (m : M) (o : Obs) : M × List String :=
   let (ls, _) := splitCRLF o.written
@@ -122,27 +140,26 @@ def step (lmtp : Bool) (m : M) (o : Obs) : M × List String :=
     | .mail .. => if o.res == "nil" then { m1 with accepted := [] } else m1
     | .rcpt t _ => if o.res == "nil" then { m1 with accepted := m1.accepted ++ [t] } else m1
     | .reset => if o.res == "nil" then { m1 with accepted := [] } else m1
-    | .data | .lmtpData => if o.res == "nil" then { m1 with parts := [] } else m1
+    | .data | .lmtpData => if o.res == "nil" then { m1 with parts := [], nWriters := m1.nWriters + 1 } else m1
     | .write bs => { m1 with parts := m1.parts ++ bs }
     | _ => m1
+  -- which writer a Close is about, and whether that writer had been closed before
+  let closeIdx : Option Nat := match o.call with | .close k? => some (k?.getD (m.nWriters - 1)) | _ => none
+  let again : Bool := match closeIdx with | some i => m.closedW.contains i | none => false
   let bad16 : List String := match o.call with
-    | .close =>
-      (if m.lastWasClose && (o.res != "err" || !o.written.isEmpty)
+    | .close _ =>
+      (if again && (o.res != "err" || !o.written.isEmpty)
        then ["C16 a second Close is not an error, or writes to the server again"] else []) ++
-      (if !m.lastWasClose && !o.written.isEmpty then
+      (if !again && !o.written.isEmpty then
          -- the octets on the wire, read back with the DATA specification, are the normalised body
          let body := m.parts
-         let crOk := (body.zip (body.drop 1 ++ [0])).all (fun p => p.1 != 13 || p.2 == 10)
-         let norm0 := body.foldl (fun (acc : Bytes × Byte) b =>
-           (if b == 10 && acc.2 != 13 then acc.1 ++ [13, 10] else acc.1 ++ [b], b)) (([] : Bytes), (0 : Byte))
-         let norm := if norm0.1.isEmpty || !(hasSuffix norm0.1 [13, 10]) then norm0.1 ++ [13, 10] else norm0.1
-         if crOk && terminated? o.written != some (norm, [])
+         if crOk body && terminated? o.written != some (normBody body, [])
          then ["C16 the message on the wire does not read back as the normalised body followed by the end marker"] else []
        else [])
     | _ => []
   let bad18 : List String := match o.call with
-    | .close =>
-      if lmtp && !m.lastWasClose && o.extra != "" then
+    | .close _ =>
+      if lmtp && !again && o.extra != "" then
         let cbRcpts := (o.extra.splitOn "+").map fun it => bytesOfHex ((it.splitOn "=").headD "")
         if o.res == "err" then
           (if cbRcpts.isPrefixOf m2.accepted then [] else ["C18 a status callback named a recipient that is not of this transaction"])
@@ -163,7 +180,9 @@ def step (lmtp : Bool) (m : M) (o : Obs) : M × List String :=
         if "334".b.isPrefixOf beforeStar then []
         else ["C09 the client sends the cancel token '*' although the server had already ended the exchange"]
     | _ => []
-  ({ m2 with lastWasClose := (match o.call with | .close => true | _ => false) }, bad15 ++ bad16 ++ bad18 ++ bad09)
+  ({ m2 with lastWasClose := closeIdx.isSome,
+             closedW := (match closeIdx with | some i => if i < m.nWriters then i :: m.closedW else m.closedW | none => m.closedW) },
+   bad15 ++ bad16 ++ bad18 ++ bad09)
 
 def check (pid : String) (lmtp : Bool) (peer : Client.Peer) (obs : List Obs) : List String :=
   let (_, bad) := obs.foldl (fun (acc : M × List String) o => let (m', b) := step lmtp acc.1 o; (m', acc.2 ++ b))
